@@ -160,7 +160,7 @@ class Encoder:
                 # the FINAL response the server sent for it (never an interim one)
                 call_ = self.run.calls[e["r"]]
                 path_ = "/" + str(call_.url).split("://", 1)[-1].partition("/")[2] if isinstance(call_.url, str) else "/"
-                want_status = 413 if path_.startswith("/early") else 200
+                want_status = 413 if path_.startswith("/early") else (101 if path_.startswith("/upgrade") else 200)
                 tokok[e["r"]] = e.get("tok", "") == call_.tok and (e.get("status") in (None, want_status) or not isinstance(call_.url, str))
                 nsent[e["r"]] = len(e.get("sent_on", []))
             elif k == "BodyEnd":
